@@ -1,4 +1,5 @@
 import ShkModel.Lemmas.PrinterFix
+import ShkModel.Lemmas.Escape
 /-!
 # C10 — the printed configuration re-loads to the same play
 
@@ -186,5 +187,47 @@ theorem old_stale_repeat :
     ((loadOld mtChar staleSample).bind fun c => (loadOld mtChar (printOld c)).map fun c' => c'.repAct) = some 0 ∧
     ((load mtChar staleSample).map fun c => c.repAct) = some 0 := by
   decide
+
+/-! ## The text layer: `escapeNl` against the reader's continuation lines
+
+The theorems above treat clause texts as opaque; between `printCfg` and the next `parseCfg` a text travels as
+bytes: `escapeNl` (config.go) puts a backslash before every newline of the text, the file is cut into physical
+lines at the newlines, and the reader (`gather`, the loop of `readLine` modelled for C09) joins the lines that
+end in a backslash.  `pre` is what `printCfg` writes before the text on the same line (indentation, keyword,
+names), `rest` the physical lines that follow. -/
+section text
+open Shk.Preproc Shk.Reader Shk.Escape
+
+/-- **An escaped text is read back as one logical line holding the same text**, whatever it contains
+(newlines from continuation lines of the original, backslashes anywhere, a final backslash): the reader
+consumes exactly the physical lines of this clause (`nls t + 1` of them), leaves `rest` untouched, and the
+logical line is `pre ++ t` — followed by the single blank `escapeNl` appends after a final backslash, which
+the reader's `TrimSpace` removes. -/
+theorem escaped_text_reads_back (tail : Bytes) (bad : Bool) (rest : List Bytes) (pre t : Bytes)
+    (hpre : 10 ∉ pre) (h : t ≠ [] ∨ endsBackslash pre = false) :
+    gather tail bad [] (splitNl [] (pre ++ escapeNl t) ++ rest) 0
+      = .line (pre ++ t ++ fin t) rest (nls t + 1) false := by
+  unfold escapeNl
+  rw [splitNl_prefix pre hpre, List.nil_append, ← fin_prefix pre t h, gather_escape]
+  simp
+
+/-- the appended blank is there exactly when the text ends in a backslash -/
+theorem fin_spec (t : Bytes) : fin t = if t.getLast? = some 92 then [32] else [] := by
+  unfold fin endsBackslash; by_cases h : t.getLast? = some 92 <;> simp [h]
+
+/-- **before the repair (6cb11bb)** a text ending in a backslash swallowed the next physical line:
+`:a printf x\` followed by `end` was read back as one clause `:a printf x` NL `end`. -/
+theorem old_final_backslash_swallows_next_line :
+    gather [] false [] (splitNl [] ([58, 97, 32] ++ escapeNlOld [120, 92]) ++ [[101, 110, 100]]) 0
+      = .line [58, 97, 32, 120, 10, 101, 110, 100] [] 2 false ∧
+    gather [] false [] (splitNl [] ([58, 97, 32] ++ escapeNl [120, 92]) ++ [[101, 110, 100]]) 0
+      = .line [58, 97, 32, 120, 92, 32] [[101, 110, 100]] 1 false := by
+  decide
+
+/-- non-vacuity: a three-line text with an inner and a final backslash -/
+example : gather [] false [] (splitNl [] ([32, 32] ++ escapeNl [97, 92, 10, 98, 10, 99, 92]) ++ [[101]]) 0
+    = .line ([32, 32] ++ [97, 92, 10, 98, 10, 99, 92] ++ [32]) [[101]] 3 false := by decide
+
+end text
 
 end Shk.C10
